@@ -26,6 +26,14 @@ Input presentation (parameters `scale`, `form`, `p2` of the clauses; every quant
 under A -> c A): overall factors 1e-12 .. 1e12 and 2^-300, 2^300 (2^+-500 exact in C08.maxvol.exact), Fortran
 order, non-contiguous views, transposed views.
 
+Element type and writeability of the input (gap closure; part of `form` = '<layout>[:<dtype>][:ro]'): int64, int32, int16, int8,
+uint8 (integer-valued matrices as np.array([[2, 1], ...]) / rng.integers give them), float32, float16, longdouble, read-only
+arrays, each also Fortran-ordered / strided / transposed: B must be a FLOAT matrix with the identities of the statement to the
+working precision (SciPy factorises float32, float16 and integers of <= 16 bits in single precision: eps of float32 there), the
+input is never written to, _maxvol's trivial branch returns a float identity.  C08.input_form.int_fortran_order isolates a
+finding: integer dtype x Fortran order (or transposed view) gives a wrong B on the clean tree because scipy.linalg.lu (1.18.1)
+returns P L U != A for such input.
+
 Matrix families (quantifier): Gaussian factors with prescribed singular values (condition number 1 ... 1e8),
 rows of unit length,
 nz exactly-zero rows, nd duplicated rows, small-integer matrices (ties), aspect ratios from n = r+1.
@@ -45,7 +53,9 @@ BOUNDS = ('r <= 5 (quick) / <= 10 (thorough), n - r in {1,2,3,7,20,(60)} and 40,
           '{0,1,2,3,5,10,100,1e5}; maxvol_rect: all 0 <= dr_min <= n-r (n-r <= 7), dr_max in {dr_min, dr_min+1, dr_min+3, None}, '
           'e0 in {1.01,1.05,2,5}, k0 in {1,2,10,100}; limits exhaustive for n <= 6, r <= 3, dr in -1..n-r+2 and None; overall '
           'scale 1e-12..1e12 and 2^+-300 (2^+-500 exact), C / F / non-contiguous / transposed input; _maxvol with '
-          '(tau, tau0, k0) in {(1.1,1.05,100), (3,1.01,1e5), (1.01,2.5,1e5), (1.3,1.3,1)}; default-argument calls')
+          '(tau, tau0, k0) in {(1.1,1.05,100), (3,1.01,1e5), (1.01,2.5,1e5), (1.3,1.3,1)}; default-argument calls; input '
+          'element types int64/int32/int16/int8/uint8/float32/float16/longdouble and read-only arrays x C / F / strided / '
+          'transposed (21 forms x r in {1,2,3,5} x n-r in {1,7,40}) for maxvol, maxvol_rect, _maxvol (also n <= r)')
 
 EPS = np.finfo(float).eps
 KBIG = 100000
@@ -90,20 +100,76 @@ def _matrix(n, r, nz, nd, ints, lc, seed):
     return A, c
 
 
+EPS32 = float(np.finfo(np.float32).eps)
+SINGLE = ('float32', 'float16', 'int16', 'int8', 'uint8')      # SciPy's LU (and so B) is single precision for these dtypes
+INT_DT = ('int64', 'int32', 'int16', 'int8', 'uint8')
+
+
+def _form(form):
+    """'<layout>[:<dtype>][:ro]' -> (layout, dtype or None, read-only?)"""
+    parts = form.split(':')
+    dt = [q for q in parts[1:] if q != 'ro']
+    return parts[0] or 'C', (dt[0] if dt else None), 'ro' in parts[1:]
+
+
+def _form_values(A, form):
+    """The float64 matrix holding EXACTLY the values that reach the library when A is handed over in the given form, and
+    the unit roundoff the library can be held to: integer dtypes take round(3 A) for a non-integer A (uint8: shifted to
+    be >= 0), float32 / float16 the rounded entries; eps is that of float32 for the dtypes SciPy factorises in single
+    precision (float32, float16 and the integers of <= 16 bits), else that of float64.  None if the values do not fit
+    the dtype or the full column rank is lost by the conversion (caller SKIPs)."""
+    _layout, dt, _ro = _form(form)
+    if dt is None:
+        return A, EPS
+    if dt in INT_DT:
+        if not np.array_equal(A, np.rint(A)):
+            A = np.rint(3. * A)
+        if dt == 'uint8':
+            A = A - min(0., A.min())
+        info = np.iinfo(dt)
+        if A.min() < info.min or A.max() > info.max:
+            return None
+        A = A.astype(dt).astype(float)
+    else:
+        A = A.astype(dt).astype(float)
+    if not np.all(np.isfinite(A)):
+        return None
+    sv = np.linalg.svd(A, compute_uv=False)
+    if sv[-1] <= 1e-4 * sv[0]:
+        return None
+    return A, (EPS32 if dt in SINGLE else EPS)
+
+
 def _present(A, scale=1.0, form='C'):
     """The matrix as handed to the library: overall factor `scale` (B = A A[I]^-1 and every quantity of the
-    property are invariant under it) and memory form: 'C' / 'F' contiguous, 'view' (non-contiguous slice of a
-    larger array), 'T' (transposed view of a C-contiguous [r, n] array)."""
+    property are invariant under it) and the form '<layout>[:<dtype>][:ro]' - memory layout 'C' / 'F' contiguous, 'view'
+    (non-contiguous slice of a larger array), 'T' (transposed view of a C-contiguous [r, n] array); element type (default
+    float64; int64, int32, int16, int8, uint8, float32, float16, longdouble - A must hold values of that type, see
+    _form_values); 'ro': the array (and the buffer it is a view of) is read-only, a write attempt raises."""
+    layout, dt, ro = _form(form)
     A = A * scale if scale != 1.0 else A
-    if form == 'F':
-        return np.asfortranarray(A)
-    if form == 'view':
-        big = np.full((2 * A.shape[0], 2 * A.shape[1] + 1), 7.5)
+    if dt is not None:
+        A = A.astype(dt)
+    if layout == 'F':
+        out = np.asfortranarray(A)
+        out = out.copy(order='F') if out is A else out
+    elif layout == 'view':
+        big = np.full((2 * A.shape[0], 2 * A.shape[1] + 1), 7, dtype=A.dtype)
         big[::2, 1::2] = A
-        return big[::2, 1::2]
-    if form == 'T':
-        return np.ascontiguousarray(A.T).T
-    return A.copy()
+        out = big[::2, 1::2]
+        if ro:
+            big.flags.writeable = False
+    elif layout == 'T':
+        base = np.ascontiguousarray(A.T)
+        base = base.copy() if base is A.T or np.shares_memory(base, A) else base
+        out = base.T
+        if ro:
+            base.flags.writeable = False
+    else:
+        out = A.copy()
+    if ro:
+        out.flags.writeable = False
+    return out
 
 
 def _valid_index(I, n, m=None):
@@ -116,10 +182,10 @@ def _valid_index(I, n, m=None):
     return None
 
 
-def _residual_ok(A, B, I):
+def _residual_ok(A, B, I, eps=EPS):
     S = A[I]
     res = np.abs(A - B @ S).max()
-    tol = 64. * (A.shape[1] + len(I)) * EPS * np.abs(A).max() * max(1., np.abs(B).max())
+    tol = 64. * (A.shape[1] + len(I)) * eps * np.abs(A).max() * max(1., np.abs(B).max())
     return bool(np.all(np.isfinite(B)) and res <= tol), res, tol      # (an infinite B would make tol infinite)
 
 
@@ -132,22 +198,30 @@ def maxvol_contract(n, r, nz, nd, ints, lc, seed, e, k, scale=1.0, form='C'):
         return SKIP('rank-deficient construction')
     A, cond = M
     A = A * scale
+    V = _form_values(A, form)
+    if V is None:
+        return SKIP(f'the form {form} cannot hold this matrix with full column rank')
+    A, eps = V
     A_in = _present(A, 1.0, form)
+    snap = gen.snapshot(A_in)
     I, B = teneva.maxvol(A_in, e, k)
+    if gen.snapshot(A_in) != snap:
+        return FAIL(f'the input matrix ({form}) was modified')
     msg = _valid_index(I, n, r)
     if msg:
         return FAIL(msg)
     if len(set(I.tolist())) != r:
         return FAIL(f'rows not distinct: {I.tolist()}')
     if not isinstance(B, np.ndarray) or B.shape != (n, r) or B.dtype.kind != 'f' or not np.all(np.isfinite(B)):
-        return FAIL(f'B malformed: shape {getattr(B, "shape", None)}')
-    ok, res, tol = _residual_ok(A, B, I)
+        return FAIL(f'B malformed: shape {getattr(B, "shape", None)}, dtype {getattr(B, "dtype", None)} (input form {form})')
+    B = B.astype(float)
+    ok, res, tol = _residual_ok(A, B, I, eps)
     if not ok:
-        return FAIL(f'A != B A[I]: residual {res:.3e} > tol {tol:.3e} (cond {cond:.1e})')
+        return FAIL(f'A != B A[I]: residual {res:.3e} > tol {tol:.3e} (cond {cond:.1e}, input form {form})')
     S = A[I]
     cS = np.linalg.cond(S)
     errI = np.abs(B[I] - np.eye(r)).max()
-    tolI = 64. * r * EPS * cS
+    tolI = 64. * r * eps * cS
     if not errI <= tolI:
         return FAIL(f'B[I] != identity: {errI:.3e} > {tolI:.3e} (cond(A[I]) {cS:.1e})')
     if k >= KBIG:
@@ -156,9 +230,9 @@ def maxvol_contract(n, r, nz, nd, ints, lc, seed, e, k, scale=1.0, form='C'):
             return FAIL(f'max|B| = {mb!r} > e = {e} although the iteration limit {k} is not hit')
         Bo = np.linalg.solve(S.T, A.T).T
         mo = np.abs(Bo).max()
-        if not mo <= e * (1. + 64. * r * EPS * cS):
+        if not mo <= e * (1. + 64. * r * eps * cS):
             return FAIL(f'rows I are not dominant: max|A A[I]^-1| = {mo!r} > e = {e}')
-        B0 = teneva.maxvol(A.copy(), e, 0)[1]          # classification only: was any row swap needed?
+        B0 = teneva.maxvol(_present(A, 1.0, form), e, 0)[1]          # classification only: was any row swap needed?
         if not np.all(np.isfinite(B0)):
             return FAIL('B of the LU start (k = 0) is not finite')
         return PASS if np.abs(B0).max() > e else TRIVIAL('the LU start is already dominant (no row swap needed)')
@@ -218,7 +292,12 @@ def maxvol_reject(n, r, seed):
 
 
 def _rect_call(A, e, dr_min, dr_max, e0, k0, form='C'):
-    return teneva.maxvol_rect(_present(A, 1.0, form), e, dr_min, dr_max, e0, k0)
+    A_in = _present(A, 1.0, form)
+    snap = gen.snapshot(A_in)
+    out = teneva.maxvol_rect(A_in, e, dr_min, dr_max, e0, k0)
+    if gen.snapshot(A_in) != snap:
+        raise AssertionError(f'the input matrix ({form}) was modified')
+    return out
 
 
 @clause('C08.maxvol_rect.contract', funcs=('maxvol.maxvol_rect',))
@@ -231,6 +310,10 @@ def rect_contract(n, r, nz, nd, ints, lc, seed, e, dr_min, dr_max, e0, k0, scale
         return SKIP('rank-deficient construction')
     A, cond = M
     A = A * scale
+    V = _form_values(A, form)
+    if V is None:
+        return SKIP(f'the form {form} cannot hold this matrix with full column rank')
+    A, eps = V
     if r + dr_min > int(A.any(axis=1).sum()):
         return SKIP('fewer non-zero rows than r+dr_min: covered by C08.maxvol_rect.distinct.zero_rows')
     I, B = _rect_call(A, e, dr_min, dr_max, e0, k0, form)
@@ -244,20 +327,23 @@ def rect_contract(n, r, nz, nd, ints, lc, seed, e, dr_min, dr_max, e0, k0, scale
     if len(set(I.tolist())) != m:
         return FAIL(f'rows not distinct: {I.tolist()}')
     if not isinstance(B, np.ndarray) or B.shape != (n, m) or B.dtype.kind != 'f' or not np.all(np.isfinite(B)):
-        return FAIL(f'B malformed: shape {getattr(B, "shape", None)} for |I| = {m}')
-    ok, res, tol = _residual_ok(A, B, I)
+        return FAIL(f'B malformed: shape {getattr(B, "shape", None)}, dtype {getattr(B, "dtype", None)} for |I| = {m} '
+                    f'(input form {form})')
+    B = B.astype(float)
+    ok, res, tol = _residual_ok(A, B, I, eps)
     if not ok:
-        return FAIL(f'A != B A[I]: residual {res:.3e} > tol {tol:.3e} (cond {cond:.1e})')
+        return FAIL(f'A != B A[I]: residual {res:.3e} > tol {tol:.3e} (cond {cond:.1e}, input form {form})')
     if not np.array_equal(B[I], np.eye(m)):
         return FAIL(f'B[I] != identity: max dev {np.abs(B[I] - np.eye(m)).max():.3e}')
     if m < hi:
+        slack = 1e-10 if eps == EPS else 64. * (r + m) * eps     # (the library's own row norms are in the working precision)
         nb = np.linalg.norm(B, axis=1).max()
-        if not nb <= e * (1. + 1e-10):
+        if not nb <= e * (1. + slack):
             return FAIL(f'stopped at |I| = {m} < {hi} but a row of B has norm {nb!r} > e = {e}')
         S = A[I]
         Bo = A @ np.linalg.pinv(S)
         no = np.linalg.norm(Bo, axis=1).max()
-        if not no <= e * (1. + 1e-10 + 64. * m * EPS * np.linalg.cond(S)):
+        if not no <= e * (1. + slack + 64. * m * eps * np.linalg.cond(S)):
             return FAIL(f'stopped at |I| = {m} < {hi} but a row of A pinv(A[I]) has norm {no!r} > e = {e}')
         return PASS
     return PASS
@@ -315,14 +401,28 @@ def rect_limits(n, r, seed):
 
 
 @clause('C08._maxvol.dispatch', funcs=('utils._maxvol', 'maxvol.maxvol', 'maxvol.maxvol_rect'))
-def maxvol_dispatch(n, r, dr_min, dr_max, seed, tau=1.1, tau0=1.05, k0=100, scale=1.0):
+def maxvol_dispatch(n, r, dr_min, dr_max, seed, tau=1.1, tau0=1.05, k0=100, scale=1.0, form='C'):
     """n <= r: (arange(n), eye(n)); otherwise dr_max clipped to n-r, dr_min to dr_max, and the result is the
     one of maxvol (clipped dr_max = 0) or maxvol_rect with the clipped limits (agreement clause), with the
     row-count and reproduction identities of the statement.  With k0 >= 1e5 (iteration limit not hit) the
     accuracy parameters must arrive in the right slots: max|B| <= tau0 for the square variant (also re-derived
     from I alone), row norms of B <= tau when the rectangular variant stopped before its upper limit."""
     A = gen.rng('C08.dispatch', n, r, seed).normal(size=(n, r)) * scale
-    I, B = teneva._maxvol(A.copy(), tau, dr_min, dr_max, tau0, k0)
+    eps = EPS
+    if form != 'C':                     # element type / memory form of the input (see _present)
+        if n > r:
+            V = _form_values(A, form)
+            if V is None:
+                return SKIP(f'the form {form} cannot hold this matrix with full column rank')
+            A, eps = V
+        elif _form(form)[1] in INT_DT:  # wide / square input: any values do
+            A = np.rint(3. * A)
+            A = A - (A.min() if _form(form)[1] == 'uint8' else 0.)
+    A_in = _present(A, 1.0, form)
+    snap = gen.snapshot(A_in)
+    I, B = teneva._maxvol(A_in, tau, dr_min, dr_max, tau0, k0)
+    if gen.snapshot(A_in) != snap:
+        return FAIL(f'the input matrix ({form}) was modified')
     if n <= r:
         if not (isinstance(I, np.ndarray) and I.dtype.kind in 'iu' and np.array_equal(I, np.arange(n))):
             return FAIL(f'trivial case: I = {I!r}')
@@ -336,30 +436,44 @@ def maxvol_dispatch(n, r, dr_min, dr_max, seed, tau=1.1, tau0=1.05, k0=100, scal
         return FAIL(msg)
     if not (r + dmin <= len(I) <= r + dmax) or len(set(I.tolist())) != len(I):
         return FAIL(f'|I| = {len(I)} outside [{r + dmin}, {r + dmax}] or not distinct: {I.tolist()}')
-    if not (isinstance(B, np.ndarray) and B.shape == (n, len(I))):
-        return FAIL(f'B has shape {getattr(B, "shape", None)} for |I| = {len(I)}')
-    ok, res, tol = _residual_ok(A, B, I)
+    if not (isinstance(B, np.ndarray) and B.shape == (n, len(I)) and B.dtype.kind == 'f'):
+        return FAIL(f'B has shape {getattr(B, "shape", None)}, dtype {getattr(B, "dtype", None)} for |I| = {len(I)} '
+                    f'(input form {form})')
+    B_lib, B = B, B.astype(float)
+    ok, res, tol = _residual_ok(A, B, I, eps)
     if not ok:
-        return FAIL(f'A != B A[I]: {res:.3e} > {tol:.3e}')
+        return FAIL(f'A != B A[I]: {res:.3e} > {tol:.3e} (input form {form})')
     if k0 >= KBIG:
         if dmax == 0:
             S = A[I]
             cS = np.linalg.cond(S)
             mb = np.abs(B).max()
             mo = np.abs(np.linalg.solve(S.T, A.T).T).max()
-            if not (mb <= tau0 and mo <= tau0 * (1. + 64. * r * EPS * cS)):
+            if not (mb <= tau0 and mo <= tau0 * (1. + 64. * r * eps * cS)):
                 return FAIL(f'square variant: max|B| = {mb!r} (from I alone {mo!r}) > tau0 = {tau0}')
         elif len(I) < r + dmax:
             nb = np.linalg.norm(B, axis=1).max()
-            if not nb <= tau * (1. + 1e-10):
+            if not nb <= tau * (1. + (1e-10 if eps == EPS else 64. * (r + len(I)) * eps)):
                 return FAIL(f'rectangular variant stopped at |I| = {len(I)} < {r + dmax} with a row norm {nb!r} > tau = {tau}')
     if dmax == 0:
-        I2, B2 = teneva.maxvol(A.copy(), tau0, k0)
+        I2, B2 = teneva.maxvol(_present(A, 1.0, form), tau0, k0)
     else:
-        I2, B2 = teneva.maxvol_rect(A.copy(), tau, dmin, dmax, tau0, k0)
-    if not (np.array_equal(I, I2) and np.array_equal(B, B2)):
+        I2, B2 = teneva.maxvol_rect(_present(A, 1.0, form), tau, dmin, dmax, tau0, k0)
+    if not (np.array_equal(I, I2) and np.array_equal(B_lib, B2)):
         return FAIL(f'differs from the direct call: I = {I.tolist()} vs {I2.tolist()}')
     return PASS
+
+
+@clause('C08.input_form.int_fortran_order', funcs=('maxvol.maxvol', 'maxvol.maxvol_rect', 'utils._maxvol'))
+def int_fortran_order(which, params):
+    """The contract clauses above for an INTEGER-typed matrix that is Fortran-ordered (or the transposed view of a
+    C-ordered array), isolated: on the clean library with the installed SciPy 1.18.1 these calls return a wrong B
+    (A != B A[I] by O(|A|), B[I] != identity, _maxvol even repeats rows), because `scipy.linalg.lu` itself returns
+    factors with P L U != A for Fortran-ordered integer input (C-ordered / strided integer input and Fortran-ordered float
+    input are factorised correctly).  Possible genuine defect (environment-induced), reported; every other element type x
+    memory layout combination is checked by the general clauses."""
+    fn = {'maxvol': maxvol_contract, 'rect': rect_contract, 'dispatch': maxvol_dispatch}[which]
+    return fn(**params)
 
 
 @clause('C08.defaults', funcs=('maxvol.maxvol', 'maxvol.maxvol_rect', 'utils._maxvol'))
@@ -569,6 +683,41 @@ def cases(tier, seed):
                     for (a, b) in ((0, None), (1, 2), (0, 0)):
                         yield 'C08.maxvol_rect.contract', dict(n=r + dn, r=r, nz=0, nd=rep, ints=False, lc=0., seed=sd,
                                                                e=1.1, dr_min=a, dr_max=b, e0=1.05, k0=10, form=form)
+    # ---- element type and writeability of the input (the property says "matrix", not "float64 matrix"): integer dtypes of
+    # every width (an integer-valued tall matrix built with np.array([[2, 1], [1, 3], ...]) or rng.integers), single / half /
+    # extended precision floats, read-only arrays, each also Fortran-ordered / as a non-contiguous or transposed view; B must
+    # come back as a FLOAT matrix with A = B A[I] to the working precision (float32 for the dtypes SciPy factorises in single
+    # precision), whatever buffer the implementation allocates "like A"
+    dforms = ('C:int64', 'C:int32', 'F:int64', 'view:int32', 'T:int64', 'C:int16', 'C:int8', 'C:uint8', 'F:int8',
+              'C:float32', 'F:float32', 'view:float32', 'T:float32', 'C:float16', 'C:longdouble', 'C:ro', 'F:ro',
+              'view:ro', 'T:ro', 'C:int64:ro', 'F:float32:ro')
+    for r in ((1, 2, 3, 5, 8) if big else (1, 2, 3, 5)):
+        for dn in ((1, 3, 7, 40) if big else (1, 7, 40)):
+            for j, form in enumerate(dforms):
+                isint = _form(form)[1] in INT_DT
+                for rep in range(3 if big else 1):
+                    sd = r + dn + j if rep == 0 else s()
+                    fam = dict(nz=rep % 2, nd=(rep // 2) % 2, ints=isint or rep == 2, lc=0. if isint else (0., 2.)[(r + j) % 2])
+                    out = []
+                    for k in (0, 1, KBIG):
+                        out.append(('maxvol', 'C08.maxvol.contract', dict(n=r + dn, r=r, seed=sd, e=(1.01, 1.5)[(j + k) % 2],
+                                                                          k=k, form=form, **fam)))
+                    for (a, b) in ((0, None), (1, 2), (0, 0)):
+                        out.append(('rect', 'C08.maxvol_rect.contract', dict(
+                            n=r + dn, r=r, seed=sd, e=(1.1, 1.5)[(j + a) % 2], dr_min=a, dr_max=b, e0=1.05, k0=10, form=form,
+                            **fam)))
+                    for (a, b, tau, tau0, k0) in ((0, 0, 1.1, 1.05, 100), (1, 2, 3.0, 1.01, KBIG), (0, 3, 1.01, 2.5, KBIG)):
+                        out.append(('dispatch', 'C08._maxvol.dispatch', dict(n=r + dn, r=r, dr_min=a, dr_max=b, seed=sd,
+                                                                             tau=tau, tau0=tau0, k0=k0, form=form)))
+                    for which, cid, p in out:
+                        if isint and _form(form)[0] in ('F', 'T'):      # known finding (SciPy lu), isolated
+                            yield 'C08.input_form.int_fortran_order', dict(which=which, params=p)
+                        else:
+                            yield cid, p
+            for form in dforms[:3] + dforms[9:10] + dforms[15:16]:       # n <= r: the trivial branch of _maxvol
+                for n in (r - 1, r):
+                    if n >= 1:
+                        yield 'C08._maxvol.dispatch', dict(n=n, r=r, dr_min=0, dr_max=1, seed=dn, form=form)
     # ---- random: any scale, any layout, more iteration limits
     for rep in range(1500 if big else 200):
         r = int(g.integers(1, rs[-1] + 1))
